@@ -61,9 +61,9 @@ Definition C31_model_ok (c : C31_case) : bool :=
   match c with
   | CSim iv ops => fst (run_sim (init_state iv) ops)
   | CBlock mbt poisoned rc elapsed _ =>
-      (* a worker inside the class C31-negative-sleep never wakes again: the write stays blocked
-         (max_blocking_time 0 expires in the very iteration that stored the pending sample) *)
-      if poisoned && (0 <? mbt) then rc =? -1 else (rc =? 10) && (elapsed =? mbt)
+      (* `poisoned` = another writer of the participant is several deadline periods behind
+         (regression scenario of the fixed finding C31-negative-sleep): it makes no difference *)
+      (rc =? 10) && (elapsed =? mbt)
   | CFree _ => true
   end.
 
@@ -95,18 +95,5 @@ Definition C31_oracle_ok (c : C31_case) : bool :=
   | CFree ops => oracle_sim 1000000000 1000000000 ops
   end.
 
-(* class 1 (finding C31-negative-sleep): the scenario drives the model into a state where
-   some time_until_* value is negative when the next sleep is computed *)
-Fixpoint sim_negative (s : sstate) (ops : list (sop * obs)) : bool :=
-  match ops with
-  | [] => false
-  | (o, ob) :: r =>
-      let '(s1, ds, _) := step s o (length (o_delays ob)) in
-      existsb (fun p => match snd p with Ok d => POKE_NS <? d | _ => true end) ds || sim_negative s1 r
-  end.
-Definition C31_known (c : C31_case) : N :=
-  match c with
-  | CSim iv ops => if sim_negative (init_state iv) ops then 1%N else 0%N
-  | CBlock _ poisoned _ _ _ => if poisoned then 1%N else 0%N
-  | CFree _ => 0%N
-  end.
+(* no known classes (C31-negative-sleep was fixed by d4a5b38: the sleep is clamped at zero) *)
+Definition C31_known (c : C31_case) : N := 0%N.
